@@ -407,3 +407,53 @@ Theorem C02_end_to_end_instance :
               Proofs.Completion.ThreePieces.input Proofs.Completion.ThreePieces.pretext = Ok o.
 Proof. exact Proofs.EndToEndC02.c02_end_to_end_instance. Qed.
 Print Assumptions C02_end_to_end_instance.
+
+(* ========================================================================
+   PAINTED MAPS (what a curator really produces: scaffolds painted as
+   chromosomes).  C02_completion for tiling maps whose baits are untagged or
+   tagged Painted, and the WHOLE pipeline (fusion, chromosome naming by size,
+   sorting, statistics) completes as well under three further hypotheses,
+   each shown necessary by a computed counterexample: input contigs stranded,
+   painted Pretext scaffolds have a non-empty name, no bait name has the shape
+   <hap>_<anything>_<digits> (13.5).  No bound on the number of painted
+   scaffolds, no condition on input contig names, Pretext scaffold names need
+   not be distinct. *)
+From Tola Require Proofs.CompletionPainted.
+Theorem C02_completion_painted : forall g prefix n d input pretext,
+  0 < d -> d <= n ->
+  Forall Proofs.Completion.input_ok input -> NoDup (map fst input) ->
+  NoDup (map key_of (Model.RemapSpec.in_frags input)) ->
+  Forall (fun f => f_tags f = []) (Model.RemapSpec.in_frags input) ->
+  Forall (fun p => exists b t, snd p = RF b :: t) pretext ->
+  Forall (fun b => (f_tags b = [] \/ f_tags b = [s "Painted"]) /\ (f_strand b = 1 \/ f_strand b = -1)
+                   /\ In (f_name b) (map fst input)) (Proofs.CoreKept.baits_of pretext) ->
+  Forall (Proofs.Completion.scaffold_tiled n d (Proofs.CoreKept.baits_of pretext)) input ->
+  exists rs, remap_to_input repaired g prefix (n, d) input pretext = Ok rs.
+Proof. exact Proofs.CompletionPainted.completion_of_painted_tiling_maps. Qed.
+Print Assumptions C02_completion_painted.
+
+Theorem C02_painted_maps_complete : forall g prefix n d input pretext,
+  0 < d -> d <= n ->
+  Forall Proofs.Completion.input_ok input -> NoDup (map fst input) ->
+  NoDup (map key_of (Model.RemapSpec.in_frags input)) ->
+  Forall (fun f => f_tags f = []) (Model.RemapSpec.in_frags input) ->
+  Forall (fun p => exists b t, snd p = RF b :: t) pretext ->
+  Forall (fun b => (f_tags b = [] \/ f_tags b = [s "Painted"]) /\ (f_strand b = 1 \/ f_strand b = -1)
+                   /\ In (f_name b) (map fst input)) (Proofs.CoreKept.baits_of pretext) ->
+  Forall (Proofs.Completion.scaffold_tiled n d (Proofs.CoreKept.baits_of pretext)) input ->
+  Forall (fun f => f_strand f = 1 \/ f_strand f = -1) (Model.RemapSpec.in_frags input) ->
+  Forall (fun p => Proofs.UniqueNames.painted_b p = true -> fst p <> []) pretext ->
+  Proofs.UniqueNames.no_haplotypes pretext ->
+  exists o, remap repaired g prefix (n, d) input pretext = Ok o.
+Proof. exact Proofs.CompletionPainted.painted_tiling_maps_complete. Qed.
+Print Assumptions C02_painted_maps_complete.
+
+Theorem C02_painted_needs_stranded_contigs : ~ Proofs.CompletionPainted.painted_statement false true true.
+Proof. exact Proofs.CompletionPainted.painted_tiling_maps_complete_needs_stranded_contigs. Qed.
+Theorem C02_painted_needs_named_scaffolds : ~ Proofs.CompletionPainted.painted_statement true false true.
+Proof. exact Proofs.CompletionPainted.painted_tiling_maps_complete_needs_named_painted_scaffolds. Qed.
+Theorem C02_painted_needs_no_haplotype_names : ~ Proofs.CompletionPainted.painted_statement true true false.
+Proof. exact Proofs.CompletionPainted.painted_tiling_maps_complete_needs_no_haplotypes. Qed.
+Print Assumptions C02_painted_needs_stranded_contigs.
+Print Assumptions C02_painted_needs_named_scaffolds.
+Print Assumptions C02_painted_needs_no_haplotype_names.
